@@ -346,6 +346,31 @@ class Extractor:
             return self.binop(e.op, self.expr(e.left), self.expr(e.right), e)
         if isinstance(e, ast.Tuple):
             return tuple(self.expr(x) for x in e.elts)
+        if isinstance(e, ast.List):
+            return [self.expr(x) for x in e.elts]
+        if isinstance(e, (ast.ListComp, ast.GeneratorExp)) and len(e.generators) == 1 and not e.generators[0].ifs:
+            # comprehension over a literal / constant iterable: unrolled
+            g = e.generators[0]
+            try:
+                items = ast.literal_eval(g.iter)
+            except Exception:
+                items = None
+            if items is None and isinstance(g.iter, ast.Call) and dotted(g.iter.func) == "range":
+                try:
+                    items = list(range(*[ast.literal_eval(a) for a in g.iter.args]))
+                except Exception:
+                    items = None
+            if items is None:
+                self.err("comprehension over a non-literal iterable", e)
+            out = []
+            saved = dict(self.env)
+            for item in items:
+                def conv(z):
+                    return tuple(conv(y) for y in z) if isinstance(z, (tuple, list)) else SV(sp.Integer(z), []) if isinstance(z, int) else z
+                self.bind(g.target, conv(item), ast.Assign(targets=[g.target], value=ast.Constant(value=None)))
+                out.append(self.expr(e.elt))
+            self.env = saved
+            return out
         if isinstance(e, ast.Compare) and len(e.ops) == 1 and isinstance(e.ops[0], (ast.Lt, ast.LtE, ast.Gt, ast.GtE)):
             # elementwise comparison of arrays: a 0/1 indicator (it takes part in arithmetic as such)
             l, r = self.expr(e.left), self.expr(e.comparators[0])
@@ -935,6 +960,26 @@ class Extractor:
                 self.shared.setdefault("order_tables", {})[oid] = rows
                 ORDER_TABLES[oid] = rows
                 return SV(OrderTab(sp.Integer(oid), sp.Symbol("row"), c), [Lab(("ordrow", oid)), Lab("xyz")])
+        if short in ("identity", "eye") and len(e.args) == 1 and isinstance(e.args[0], ast.Constant) and e.args[0].value == 3:
+            # the unit order vectors e_x, e_y, e_z as a generated table (np.identity(3, dtype=int))
+            rows = [(1, 0, 0), (0, 1, 0), (0, 0, 1)]
+            oid = next(self.counter)
+            self.shared.setdefault("order_tables", {})[oid] = rows
+            ORDER_TABLES[oid] = rows
+            return SV(OrderTab(sp.Integer(oid), sp.Symbol("row"), c), [Lab(("ordrow", oid)), Lab("xyz")])
+        if short == "moveaxis" and len(e.args) == 3:
+            x = self.expr(e.args[0])
+            src, dst = self.expr(e.args[1]), self.expr(e.args[2])
+            if isinstance(x, SV) and x.labels is not None and isinstance(src, SV) and isinstance(dst, SV) and src.e.is_number and dst.e.is_number:
+                n_ax = len(x.labels)
+                si, di = int(src.e) % n_ax, int(dst.e) % n_ax
+                order = [k for k in range(n_ax) if k != si]
+                order.insert(di, si)
+                fake = ast.Call(func=ast.Attribute(value=ast.Name(id="np", ctx=ast.Load()), attr="transpose", ctx=ast.Load()),
+                                args=[e.args[0], ast.Tuple(elts=[ast.Constant(value=k) for k in order], ctx=ast.Load())], keywords=[])
+                ast.copy_location(fake, e)
+                ast.fix_missing_locations(fake)
+                return self.numpy("transpose", fake)
         if short == "tensordot":
             x, y = self.expr(e.args[0]), self.expr(e.args[1])
             axes = self.expr(e.args[2])
@@ -998,9 +1043,9 @@ class Extractor:
                     t0, p0 = x.table_view
                     out.table_view = (t0, [p0[q] for q in pp])
                 return out
-        if short == "array" and e.args and isinstance(e.args[0], ast.List) and len(e.args) == 1 and not e.keywords:
-            items = [self.expr(x) for x in e.args[0].elts]
-            if items and all(isinstance(x, SV) and x.labels is not None for x in items):
+        if short == "array" and e.args and isinstance(e.args[0], (ast.List, ast.ListComp, ast.Name)) and len(e.args) == 1 and not e.keywords:
+            items = [self.expr(x) for x in e.args[0].elts] if isinstance(e.args[0], ast.List) else self.expr(e.args[0])
+            if isinstance(items, list) and items and all(isinstance(x, SV) and x.labels is not None for x in items):
                 labs = items[0].labels
                 for it in items[1:]:
                     if [l.base for l in it.labels] != [l.base for l in labs]:
